@@ -629,6 +629,146 @@ def corruption_generic(run, prop, src_dir):
         run.tool_error(f"corruption test: only {caught} of {len(traces)} corrupted traces were rejected\n{(r['error'] or '')[-1500:]}")
 
 
+# ---------------------------------------------------------------------------------------------
+# the system specification (spec/Owlchess.tla): bounded models, reachability probes, behaviours -> code
+# ---------------------------------------------------------------------------------------------
+CHAIN_MODELS = {  # model: (in quick?, probes that must be reachable)
+    "knights1": (True, ["rep3", "rep5", "rep3_after_pop", "auto_stored"]),
+    "castle": (True, ["castled"]),
+    "ep": (True, ["refused_push", "ep_capture"]),
+    "clock": (True, ["moves50", "moves75"]),
+    "knights2": (False, ["walker_lazy", "rep3"]),
+}
+
+
+def mc_chain(run, tier):
+    """Engine MC on the system spec: every interleaving of pushes (accepted and refused), pops, outcome
+    operations and walker steps within the bound; invariants = the listed properties at design level."""
+    models = [m for m, (q, _) in CHAIN_MODELS.items() if q or tier == "thorough"]
+    info = {}
+    t0 = time.time()
+    for m in models:
+        r = run_tlc("MC_Chain", "MC_Chain.cfg", env={"MODEL": m}, workers=NCPU, xmx="12g", timeout=3000, tag=f"mcchain-{run.prop}-{m}", gc_threads=4)
+        if "Model checking completed. No error has been found" not in r["out"]:
+            run.tool_error(f"MC_Chain({m}): the implementation-shaped chain/walker does not refine the abstract one, "
+                           f"or TLC failed:\n" + r["out"][-3000:])
+            continue
+        run.states += r["distinct"]
+        run.transitions += r["generated"]
+        info[m] = {"distinct_states": r["distinct"], "states_generated": r["generated"]}
+    # anti-vacuity: the interesting situations are reachable inside the bounds
+    jobs = [(m, p) for m in models for p in CHAIN_MODELS[m][1]]
+    def probe(mp):
+        m, p = mp
+        r = run_tlc("MC_Chain", "MC_ChainProbe.cfg", env={"MODEL": m, "PROBE": p}, workers=2, xmx="3g", timeout=1500,
+                    tag=f"probe-{run.prop}-{m}-{p}")
+        return (m, p, "Invariant Probe is violated" in r["out"])
+    with ThreadPoolExecutor(max_workers=8) as ex:
+        for m, p, reached in ex.map(probe, jobs):
+            info.setdefault(m, {}).setdefault("probes_reached", []).append(p) if reached else \
+                run.tool_error(f"vacuous model: probe {p} is not reachable in MC_Chain({m})")
+    run.extra["mc_chain"] = {"models": info, "invariants": ["Inv_C13_Refines", "Inv_C13_Replay", "Inv_C02_Valid", "Inv_C14_Outcome",
+                             "Inv_C14_Count", "Inv_C17_Walker"], "action_properties": ["Act_RefusedPushChangesNothing",
+                             "Act_PopUndoesPush", "Act_WalkerLeavesChain", "Act_WalkerReturns"], "wall_s": round(time.time() - t0, 1)}
+    log(f"[mc] MC_Chain {list(info)} in {time.time() - t0:.1f}s")
+
+
+def cps(s):
+    return [ord(c) for c in s]
+
+
+def behaviour_to_script(b, idx):
+    ops, walk, last = [], None, None
+    for j, st in enumerate(b["steps"]):
+        a = st["act"]
+        k = a[0]
+        expect = {"pos": st["pos"], "len": st["len"]}
+        last = expect
+        if k == "push":
+            m = a[2]
+            if m[0] != 0 and (idx + j) % 3 == 1:
+                like = {"t": "uci", "text": cps(chessfmt.move_str(m))}
+            elif m[0] != 0 and (idx + j) % 3 == 2:
+                like = {"t": "ucimove", "text": cps(chessfmt.move_str(m))}
+            else:
+                like = {"t": "move", "m": m}
+            ops.append({"op": "push", "like": like, "expect": dict(expect, res=a[1])})
+        elif k == "pop":
+            ops.append({"op": "pop", "expect": dict(expect, res=a[1])})
+        elif k == "set_outcome":
+            ops.append({"op": "set_outcome", "o": a[1], "expect": expect})
+        elif k == "clear_outcome":
+            ops.append({"op": "clear_outcome", "expect": expect})
+        elif k == "set_auto":
+            ops.append({"op": "set_auto", "filter": a[1], "expect": expect})
+            ops.append({"op": "calc", "expect": expect})
+        elif k == "walk":
+            walk = {"op": "walk", "steps": []}
+        elif k in ("wnext", "wprev", "wstart", "wend") and walk is not None:
+            walk["steps"].append(k[1:])
+        elif k == "drop" and walk is not None:
+            walk["expect"] = expect
+            ops.append(walk)
+            walk = None
+    if walk is not None:
+        walk["expect"] = last
+        ops.append(walk)
+    ops.append({"op": "eq"})
+    ops.append({"op": "text", "variants": [{"nums": "board", "style": "san", "status": True},
+                                           {"nums": "omit", "style": "uci", "status": False},
+                                           {"nums": "custom", "custom": 7, "style": "sanutf8", "status": True}]})
+    return {"start": b["start"], "ops": ops}
+
+
+def chain_behaviours(run, prop, tier, seed, binary):
+    """Engine S2I: behaviours generated by TLC from the system specification (simulation mode), stepped
+    through the real MoveChain / Walker; the abstract state is compared after every action and the
+    recorded execution is validated against the specification."""
+    plan = [("free", 40, 14), ("knights1", 36, 4), ("castle", 14, 4), ("ep", 8, 6), ("clock", 10, 4)]
+    if tier == "thorough":
+        plan = [(m, d, n * 40) for m, d, n in plan]
+    t0 = time.time()
+    def sim(args):
+        m, depth, num = args
+        env = {"MODEL": m, "SIMDEPTH": depth}
+        if m != "free":
+            env["MAXLEN"] = depth
+        r = run_tlc("MC_ChainSim", "MC_ChainSim.cfg", env=env, workers=1, xmx="3g", timeout=3000,
+                    tag=f"sim-{prop}-{m}", simulate=f"num={num}", extra=["-depth", str(depth), "-seed", str(seed)])
+        out = []
+        for ln in r["out"].splitlines():
+            if ln.startswith('"BEHAVIOUR '):
+                try:
+                    out.append(json.loads(json.loads(ln)[len("BEHAVIOUR "):]))
+                except Exception:
+                    pass
+        if not out:
+            run.tool_error(f"MC_ChainSim({m}) produced no behaviour:\n" + r["out"][-1500:])
+        return out
+    with ThreadPoolExecutor(max_workers=len(plan)) as ex:
+        lists = list(ex.map(sim, plan))
+    seen, scripts = set(), []
+    for l in lists:
+        for b in l:
+            key = json.dumps([s["act"] for s in b["steps"]]) + json.dumps(b["start"])
+            if key not in seen:
+                seen.add(key)
+                scripts.append(behaviour_to_script(b, len(scripts)))
+    d = fresh_dir(os.path.join(WORK, f"{prop}-{tier}-s2i"))
+    sf = os.path.join(d, "scripts.ndjson")
+    with open(sf, "w") as f:
+        for sc in scripts:
+            f.write(json.dumps(sc) + "\n")
+    rc, txt_ = run_harness(binary, ["exec-scripts", sf, d, 300 if tier == "quick" else 1500])
+    log(f"[s2i] {len(scripts)} TLC behaviours -> {txt_.strip().splitlines()[-1] if txt_.strip() else ''} in {time.time() - t0:.1f}s")
+    if not harness_outcome(run, rc, txt_, d, engine="s2i"):
+        return
+    res = validate_dir(prop, d)
+    run.vectors += len(scripts)
+    run.extra["s2i_behaviours"] = {"behaviours": len(scripts), "models": {m: len(l) for (m, _, _), l in zip(plan, lists)}}
+    run.add_trace_results(res, ident_generic(prop), Classifier(prop), chain_payload)
+
+
 GENERIC = {
     # prop: (quick n, thorough n, quick shard cap, thorough cap)
     "C02": (160, 9000, 300, 1500),
@@ -691,6 +831,9 @@ def plan_generic(prop, tier, seed):
     if m:
         run.extra["max_semilegal_moves_found_by_search"] = int(m.group(1))
     corruption_generic(run, prop, out)
+    if prop in ("C13", "C14", "C17"):
+        chain_behaviours(run, prop, tier, seed, binary)
+        mc_chain(run, tier)
     if prop == "C19":
         # the same inputs through an OPTIMISED build (no debug assertions, wrapping arithmetic)
         try:
